@@ -1094,7 +1094,10 @@ class NonMementoFunctionHashRule(HashRule):
 
         """
         new_fn = self.resolver()
-        return self.src_fn != new_fn
+        changed = self.src_fn != new_fn
+        # (the name may be bound to anything by now, also to an object whose comparison does
+        # not answer with a truth value, such as an array: that is not the function)
+        return changed if isinstance(changed, bool) else True
 
     def __repr__(self):
         return f"NonMementoFunctionHashRule(key={self.key})"
